@@ -104,6 +104,15 @@ fn c07(rng: &mut Rng, idx: usize) -> Case {
             c.nontrivial = true;
             return c;
         }
+        4 => {
+            // a term with 65 537 direct parents (the parent count is a u32), a record of each kind
+            // listing as many terms: independently encoded file, then the crate's own bytes
+            let mut c = Case::new("big-fan");
+            c.op(format!("bigfan 65537 {}", rng.next()));
+            c.stat("big_fans", 1);
+            c.nontrivial = true;
+            return c;
+        }
         _ => {}
     }
     let path = rng.below(6); // 0-2 builder, 3-5 bytes v1..v3
@@ -118,6 +127,30 @@ fn c07(rng: &mut Rng, idx: usize) -> Case {
     let max_terms = *rng.pick(&[3usize, 6, 12, 25]);
     let (mut f, shape) = gen_facts(rng, &DagOpts { max_terms, with_roots: true, max_recs: 5 });
     c.stat(&format!("shape_{shape:?}"), 1);
+    if idx % 30 == 11 {
+        // a file whose LAST byte is a line feed / carriage return: the only ORPHA disease is
+        // annotated to HP:0000010 / 13 / 266 / 269 as its largest term
+        let last = *rng.pick(&[10u32, 13, 266, 269]);
+        if !f.terms.iter().any(|t| t.0 == last) {
+            f.terms.push((last, gen_name(rng)));
+            f.edges.push((118, last));
+        }
+        f.recs[2].clear();
+        f.links[2].clear();
+        f.recs[2].push((5, gen_name(rng)));
+        f.links[2].push((5, last));
+        if let Some(t) = f.terms.iter().find(|t| t.0 < last && t.0 != 1) {
+            f.links[2].push((5, t.0));
+        }
+        c.stat("files_ending_in_a_line_end_byte", 1);
+    }
+    if idx % 30 == 23 {
+        // a term with 9..13 / 255..513 direct parents, a term with as many children, records with
+        // as many terms
+        let p = *rng.pick(&[9usize, 10, 11, 12, 13, 255, 256, 257, 513]);
+        f = gen_fan(rng, p);
+        c.stat(&format!("fan_{p}"), 1);
+    }
     if idx % 30 == 17 {
         // an is_a chain of depth 40..110, terms supplied in a random order
         let n = rng.range(40, 110) as usize;
@@ -326,6 +359,14 @@ fn c08(rng: &mut Rng, tier: &str, idx: usize) -> Case {
         c.op(format!("frombytes @{file} 0"));
         c.op("dump 0".to_string());
         c.stat("shipped_files", 1);
+        c.nontrivial = true;
+        return c;
+    }
+    if idx == 7 {
+        // counts beyond two bytes: a term with 65 537 direct parents in an independently encoded file
+        let mut c = Case::new("big-fan");
+        c.op(format!("bigfan 65537 {}", rng.next()));
+        c.stat("big_fans", 1);
         c.nontrivial = true;
         return c;
     }
